@@ -224,8 +224,18 @@ func TestC05Mutations(t *testing.T) {
 		if len(toks) > 400 {
 			toks = toks[:400]
 		}
+		pad := []string{strings.Repeat("0123456789abcdef", 260)}
 		for i := 0; i <= len(toks); i++ {
 			run(toks[:i], "prefix")
+			if i%3 == 0 || i < 40 {
+				// the same truncated source at the end of a template above 4096 bytes
+				run(append(append([]string{}, pad...), toks[:i]...), "prefix-after-4096")
+			}
+		}
+		// byte-level truncation of the first tags behind a large prefix
+		src0 := strings.Join(toks, "")
+		for cut := 1; cut <= len(src0) && cut <= 60; cut++ {
+			run([]string{pad[0], src0[:cut]}, "byte-prefix-after-4096")
 		}
 		for i := range toks {
 			run(append(append([]string{}, toks[:i]...), toks[i+1:]...), "delete")
@@ -492,7 +502,41 @@ func TestC05Blobs(t *testing.T) {
 	})
 }
 
+// TestC05AttrFlood: more distinct (type, attribute) lookups than the attribute cache holds,
+// then the canary (which itself looks an attribute up).
+func TestC05AttrFlood(t *testing.T) {
+	r := NewRec(t, "C05", "2500 lookups of distinct attribute names on one struct type and of one name on 1200 distinct struct types (the process-wide attribute cache holds 1000 entries), each under a watchdog, followed by the canary; non-trivial = all")
+	defer r.Flush()
+	r.SetExhaustive()
+	if err := c20Flood("names", 2500); err != nil {
+		r.FailEnum(t, "C05.flood", map[string]int{"names": 2500}, err)
+	}
+	r.Case("names", true, "2500 fresh attribute names")
+	if err := c20Flood("types", 1200); err != nil {
+		r.FailEnum(t, "C05.flood", map[string]int{"types": 1200}, err)
+	}
+	r.Case("types", true, "1200 fresh struct types")
+	if err := canary(twig.New()); err != nil {
+		r.FailEnum(t, "C05.flood", map[string]int{"canary": 1}, err)
+	}
+}
+
+type c05FloodCase map[string]int
+
+func checkC05Flood(c c05FloodCase) error {
+	for k, n := range c {
+		if k == "canary" {
+			continue
+		}
+		if err := c20Flood(k, n); err != nil {
+			return err
+		}
+	}
+	return canary(twig.New())
+}
+
 func init() {
+	reg("C05.flood", checkC05Flood)
 	reg("C05.src", checkC05Src)
 	reg("C05.shape", checkC05Shape)
 	reg("C05.blob", checkC05Blob)
